@@ -10,6 +10,7 @@ import Driver.PassP
 import Driver.TreeP
 import Driver.ResP
 import Driver.WidthP
+import Driver.RefP
 /-! Line-protocol driver (E3): first word selects a sub-protocol, one output line per input line.
     Imports only core-only Model/Spec modules so that it links as a `lean_exe`. -/
 open Gomjml
@@ -40,6 +41,9 @@ def handle (line : String) : String :=
   | "res" :: args => Driver.ResP.handle args
   | "width" :: args => Driver.WidthP.handle args
   | "widthspec" :: args => Driver.WidthP.handleSpec args
+  | "refcmp" :: args => Driver.RefP.cmpHandle args
+  | "refsplit" :: args => Driver.RefP.splitHandle args
+  | "refcompose" :: args => Driver.RefP.composeHandle args
   | "amp" :: args => Driver.PassP.handle "amp" args
   | "ent" :: args => Driver.PassP.handle "ent" args
   | "strip" :: args => Driver.PassP.handle "strip" args
